@@ -327,7 +327,7 @@ def write_workspace(root, nodes, es, inputs=None, commands=None, extra_pkgs=(), 
             for f in files:
                 if any(ch in f for ch in "*?[{"):
                     continue                      # a glob: resolved by grog against the files that exist
-                path = os.path.join(root, nodes[i]["pkg"], f)
+                path = os.path.normpath(os.path.join(root, nodes[i]["pkg"], f))     # inputs may be spelled ./x, d/../x, a//b
                 os.makedirs(os.path.dirname(path), exist_ok=True)
                 if not os.path.exists(path):
                     with open(path, "w") as fh:
@@ -343,7 +343,28 @@ def sub_packages(nodes, pkg):
     return [q if pkg == "" else q[len(pkg) + 1:] for q in have if q != pkg and (pkg == "" or q.startswith(pkg + "/"))]
 
 
-def gen_input_patterns(rng, nodes, own=(0, 3), reach_p=0.5, files=INPUT_FILES):
+def respell(rng, f, existing_dir="data"):
+    """a non-canonical spelling of the relative path `f` that `filepath.Join` / `filepath.Clean` maps back to `f`:
+    leading ./, inner /./, doubled slash, d/../ detour (through a directory that exists, so that shells can follow it too),
+    trailing /. ; the path never escapes its package."""
+    kind = rng.randrange(7)
+    if kind == 6:
+        return f + "/."
+    if kind == 0:
+        return "./" + f
+    if kind == 1:
+        return existing_dir + "/../" + f
+    if kind == 2:
+        return f.replace("/", "//", 1) if "/" in f else ".//" + f
+    if kind == 3:
+        return f.replace("/", "/./", 1) if "/" in f else "././" + f
+    if kind == 4:
+        d, _, b = f.rpartition("/")
+        return (d + "/" if d else "") + existing_dir + "/../" + b if not d.endswith(existing_dir) else "./" + f
+    return "./" + existing_dir + "/.././" + f
+
+
+def gen_input_patterns(rng, nodes, own=(0, 3), reach_p=0.5, files=INPUT_FILES, respell_p=0.3):
     """declared inputs per target: files of its own package directory and — the case grog allows and Bazel does not — paths and globs
     that reach INTO sub-directories that are packages of their own (`sub/file`, `sub/**/*.txt`, `**/*.in`), so that one file is an
     input of targets of several packages."""
@@ -365,6 +386,8 @@ def gen_input_patterns(rng, nodes, own=(0, 3), reach_p=0.5, files=INPUT_FILES):
                     l.append("**/*." + rng.choice(["txt", "in"]))
                 else:
                     l.append(sub + "/*." + rng.choice(["txt", "in", "c"]))
+        # literal inputs are sometimes written non-canonically in the BUILD file (grog accepts them: only escaping paths are rejected)
+        l = [respell(rng, f) if not any(ch in f for ch in "*?[{") and rng.random() < respell_p else f for f in l]
         pats[i] = list(dict.fromkeys(l))
     return pats
 
